@@ -191,20 +191,29 @@ Timeout(s, q) ==
 \* ----------------------------------------------------------- lib.rs handle_split_record_error
 \* `it` = the versions in the order the result map iterates.  The first record with a parsable header
 \* dictates the kind; records of another kind are skipped.  "None" = no merge, the split error stays.
+\* The requested key addresses ONE record: in the split cases it is the key of register 1 when a version of that register
+\* is among the replies, else the key of owner 1's scratchpad when one of its versions is, else a key that addresses
+\* neither.  Since fix 72698cf a register / scratchpad whose own address is not the requested key is skipped.
+KeyFamOf(it, genuine) == IF ~genuine THEN "none" ELSE IF \E i \in 1..Len(it) : Content[it[i]].kind = "reg" /\ Content[it[i]].b = 1 THEN "reg"
+                ELSE IF \E i \in 1..Len(it) : Content[it[i]].kind = "pad" /\ Content[it[i]].b = 1 THEN "pad" ELSE "none"
+Addressed(c, it, genuine) == Content[c].kind \notin {"reg", "pad"} \/ (Content[c].b = 1 /\ KeyFamOf(it, genuine) = Content[c].kind)
 NoMerge == [kind |-> "None", e |-> "", cid |-> 0, k |-> 0, vk |-> "", vs |-> {}, vb |-> 0, vm |-> <<>>, h |-> ""]
-HandleSplit(it, key) ==
+\* genuine: the requested key is the address of the register / scratchpad family among the versions (the split cases);
+\* FALSE: it addresses neither (the retry cases run under fresh random keys)
+HandleSplitG(it, key, genuine) ==
     LET hdr == SelectSeq(it, LAMBDA c : Content[c].kind # "junk") IN
     IF hdr = <<>> THEN NoMerge ELSE
     LET kd == Content[hdr[1]].kind
         same == SelectSeq(hdr, LAMBDA c : Content[c].kind = kd)
-        goodseq == SelectSeq(same, LAMBDA c : Content[c].ok)
+        \* (since fix 72698cf a register / scratchpad of ANOTHER address is skipped like an invalid one)
+        goodseq == SelectSeq(same, LAMBDA c : Content[c].ok /\ Addressed(c, it, genuine))
         good == ToSet(goodseq)
         u == UNION {Content[c].s : c \in good}
         \* registers: the first verified one is the accumulator; one with another base fails to merge into it
         rb == IF goodseq = <<>> THEN 0 ELSE Content[goodseq[1]].b
         ru == UNION {Content[c].s : c \in {d \in good : Content[d].b = rb}}
         \* the first valid scratchpad with the highest counter wins
-        best == FoldLeft(LAMBDA acc, c : IF ~Content[c].ok THEN acc
+        best == FoldLeft(LAMBDA acc, c : IF ~Content[c].ok \/ ~Addressed(c, it, genuine) THEN acc
                                          ELSE IF acc = 0 THEN c
                                          ELSE IF Content[acc].cnt >= Content[c].cnt THEN acc ELSE c, 0, same)
     IN CASE kd = "txn" -> IF Cardinality(u) > 1 THEN OkM("txn", u, key, 0) ELSE NoMerge
@@ -214,6 +223,7 @@ HandleSplit(it, key) ==
 
 \* get_record_from_network when the network layer answers a split with versions iterating as `it`
 \* (no retries left): the merge, or the split error carrying every version
+HandleSplit(it, key) == HandleSplitG(it, key, TRUE)
 ClientSplit(it, key) == LET m == HandleSplit(it, key) IN IF m.kind = "Ok" THEN m ELSE SplitO(ToSet(it), key)
 
 \* get_record_from_network with retries: ans = the network layer's answers to successive attempts,
@@ -222,7 +232,7 @@ ClientSplit(it, key) == LET m == HandleSplit(it, key) IN IF m.kind = "Ok" THEN m
 RECURSIVE ClientGet(_, _, _, _)
 ClientGet(ans, att, key, i) ==
     LET a == ans[i]
-        m == IF a.a = "Split" THEN HandleSplit(a.it, key) ELSE NoMerge IN
+        m == IF a.a = "Split" THEN HandleSplitG(a.it, key, FALSE) ELSE NoMerge IN
     IF a.a = "Ok" THEN [o |-> OkC(a.c, key), used |-> i]
     ELSE IF m.kind = "Ok" THEN [o |-> m, used |-> i]
     ELSE IF i < att /\ i < Len(ans) THEN ClientGet(ans, att, key, i + 1)
